@@ -805,7 +805,13 @@ func (x *VC) loadAddr(a *Addr, st *State) *Val {
 	case AIndex:
 		return x.elemVal(a.Sl, a.Idx, t, st)
 	case AGlobal:
-		return x.loadGlobal(a, st)
+		gv := x.loadGlobal(a, st)
+		if a.Glob != nil && a.Glob.Pkg != nil && a.Glob.Name() == "Logger" && strings.HasSuffix(a.Glob.Pkg.Pkg.Path(), "client/pkg/log") && gv.K == KScalar {
+			// the package-level logger is initialised in its declaration (`var Logger = New()`) and never reassigned
+			x.fact(sNot(sEq(gv.T, "0")))
+			x.externs["the package-level logger client/pkg/log.Logger is not nil (initialised in its declaration)"] = true
+		}
+		return gv
 	case ADeref:
 		switch u := t.Underlying().(type) {
 		case *types.Struct:
